@@ -93,11 +93,20 @@ PROPS = {
     "C12": {
         "rule": "differential pairs: the same plan (hostile_srv / hostile_cli / faulty tunnel, all with truncation at arbitrary offsets, labels and pointers reaching the datagram end, RDLENGTH beyond the bytes present) "
                 "is executed twice, differing only in what every receive buffer holds beyond the datagram (zeros vs 0xFF / marker text / the previous datagram / pointer-like bytes); any difference in the run fingerprint "
-                "(all datagrams emitted, tun writes, wake-ups, exits) or in how the run ends is a violation. evaluations counts pairs; non-trivial = the underlying run was non-trivial; distinct = distinct fingerprints",
+                "(all datagrams emitted, tun writes, wake-ups, exits) or in how the run ends is a violation. In addition a sample of plain runs of six scenarios is executed under valgrind/memcheck "
+                "(the same deterministic simulator, uninstrumented build): a branch, address or system call of the real programs that depends on bytes nobody wrote - stack or heap residue, which the pair runs "
+                "cannot vary - is a violation. evaluations counts pairs and memcheck runs; non-trivial = the underlying run was non-trivial; distinct = distinct fingerprints",
         "jobs": [
             {"scen": "hostile_srv", "sets": {"pair": True}, "quick": 700, "thorough": 60000},
             {"scen": "hostile_cli", "sets": {"pair": True}, "quick": 2000, "thorough": 150000},
             {"scen": "tunnel", "sets": {"mode": "faulty", "pair": True, "trunc": True}, "quick": 800, "thorough": 60000},
+            # memcheck runs: the residue the pair runs cannot vary (stack and heap bytes nobody wrote) made visible as "uninitialised"
+            {"scen": "hostile_cli", "sets": {}, "quick": 48, "thorough": 3000, "vg": True},
+            {"scen": "fakesrv", "sets": {}, "quick": 48, "thorough": 3000, "vg": True},
+            {"scen": "hostile_srv", "sets": {}, "quick": 32, "thorough": 2000, "vg": True},
+            {"scen": "sessions", "sets": {}, "quick": 32, "thorough": 2000, "vg": True},
+            {"scen": "tunnel", "sets": {"mode": "faulty"}, "quick": 32, "thorough": 2000, "vg": True},
+            {"scen": "forward", "sets": {}, "quick": 16, "thorough": 1000, "vg": True},
         ],
         "expect_probes": [],
     },
@@ -220,7 +229,7 @@ LEVEL_TEXT = {
     "C20": "Exploration: seeded sequences of forwarded queries and local-DNS reply schedules (late, reordered, dropped, duplicated, unknown ids) against the real server with -b; a ledger of the 16 most recent forwards decides where each reply may go.",
     "C03": "Exploration: seeded adversarial histories against the real server in virtual time, judged by an independent authorisation model and by users[] snapshots around every processed datagram.",
     "C04": "Exploration: seeded multi-session histories with spoofers and expiry/reuse timing, judged by a wire-level model of slot ownership and a reference downstream reassembler.",
-    "C12": "Exploration by differential replay: exact determinism of the simulator turns the uncontrolled stale receive-buffer content into an explicit input; every pair must behave identically.",
+    "C12": "Exploration by differential replay: exact determinism of the simulator turns the uncontrolled stale receive-buffer content into an explicit input; every pair must behave identically. Plus memcheck over sampled simulated runs for decisions that depend on never-written memory.",
     "C05": "Exploration: sanitizer-instrumented real server inside live sessions under generated hostile datagram sequences (millions of datagrams per thorough run); a clean batch is evidence of absence for the generated classes only.",
     "C06": "Exploration: sanitizer-instrumented real client with hostile answers substituted at every handshake step and in the tunnel, and against a hostile model server that serves the whole protocol with hostile field values; sampling over answer shapes, positions and per-step choices.",
     "C13": "Exploration: every system() argument produced by the real client under generated hostile login replies is validated token by token.",
